@@ -137,6 +137,7 @@ def run(rep, facts):
     rep.rule("R19.2", "OwnedVarName eq / cmp take the interned fast path only for Static x Static; every other combination delegates to VarName")
     rep.rule("R19.3", "ASCII-fold family: VarName::eq is eq_ignore_ascii_case; cmp compares to_ascii_uppercase of both sides; in hash every buffer given to Hasher::write was upper-cased after input bytes were last copied into it")
     rep.rule("R19.4", "the interned string table is injective and all [A-Z0-9_], so derived == and string order on variants coincide with the folded comparisons")
+    rep.rule("R19.7", "the parse table of the interned names is the inverse of their string table: FromStr accepts exactly the canonical spelling of each variant (no aliases)")
     rep.rule("R19.5", "normalising constructors (String, Box<str>, Cow::Owned, &HeaderName, from_mut_str) reach construction only through the upper-casing path; from_compact folds before it parses")
     rep.rule("R19.6", "header mapping: prefix \"HTTP_\", split on '-', joined with '_'")
 
@@ -318,6 +319,37 @@ def run(rep, facts):
         else:
             badn = [k for k, v in tab.items() if not re.fullmatch(r"[A-Z0-9_]+", v) or k != v][:5]
             rep.violation("R19.4", "interned-table", "%d/%d variants extracted; non-canonical or duplicate spellings: %s" % (len(tab), nvar, badn), bb.loc())
+    # ---- R19.7: the parse table is the inverse of the display table ---------------------------------------------------------------
+    # (the interning constructors go through FromStr: a spelling it accepts for a variant reads back as that variant's canonical string, so
+    #  every accepted spelling must be that string -- an alias makes two names that differ by more than case equal, and one name unequal
+    #  to its own other-case spelling)
+    phf = [x for x in facts.bodies if x.path.startswith("<cgi::intern::StaticVarName as std::str::FromStr>::from_str::") and x.promoted]
+    pairs = []
+    for pb in phf:
+        last = None
+        for blk in pb.blocks:
+            for st in blk["st"]:
+                if st.get("k") != "assign":
+                    continue
+                rv = st["rv"]
+                if rv.get("k") == "use" and "const" in rv.get("op", {}):
+                    cvv = ir.const_value(ir.const_expr(rv["op"]["const"]))
+                    if isinstance(cvv, bytes):
+                        last = cvv.decode("ascii", "replace")
+                elif rv.get("k") == "agg" and rv.get("ak") == "adt" and F.norm(rv.get("adt", "")) == SV and last is not None:
+                    pairs.append((last, rv.get("vn")))
+                    last = None
+    disp = tabs[0][1] if tabs else {}
+    if not pairs:
+        rep.undecidable("R19.7", "parse-table", "the generated FromStr table of StaticVarName was not found (expected the entries of a phf map)")
+    else:
+        extra = sorted((s_, v_) for (s_, v_) in pairs if disp.get(v_) != s_)
+        missing = sorted(set(disp) - {v_ for (s_, v_) in pairs})
+        if extra or missing or len(pairs) != nvar:
+            rep.violation("R19.7", "parse-table", "the spellings FromStr accepts are not exactly the canonical strings: %d entries for %d variants; accepted for a variant whose "
+                          "canonical string differs: %s; variants without an entry: %s" % (len(pairs), nvar, extra[:4], missing[:4]), phf[0].loc() if phf else None)
+        else:
+            rep.ok("R19.7", "parse-table", "FromStr accepts exactly the %d canonical strings, each for its own variant" % len(pairs), phf[0].loc())
     # Ord for StaticVarName compares the strings
     b, g, rows = rows_path(facts, "<cgi::intern::StaticVarName as std::cmp::Ord>::cmp")
     ok = False
